@@ -43,6 +43,8 @@ func main() {
 		for n, k := range ssa.InlinedCalls {
 			fmt.Println("expanded:", n, k)
 		}
+	case "libsites":
+		rules.DumpLibSites(p, func(s string) { fmt.Println(s) })
 	case "tables":
 		rules.DumpTables(p)
 	default:
